@@ -139,6 +139,10 @@ def opSpec (name : String) (args : List String) : String :=
         | some l => specC04 t (hexOr inline) (hexOr psql) l
         | none => "0:unreadable parameter list")
      | none => "0:unreadable tree")
+  | "sqlcanon", [sql] =>
+    (match Sql.parseSql (hexOr sql) with
+     | some a => "1:" ++ Sql.canon a
+     | none => "0:not a confined expression")
   | _, _ => "bad-spec"
 
 /-- op `lex`: the token stream -/
